@@ -297,8 +297,14 @@ def gen_groups(rng):
             continue
         keep.append(a)
     gp_names = [n for n, k in allk.items() if k in ('P', 'GP')]
-    for _ in range(rng.choice([0, 1, 3]) if gp_names else 0):
-        keep.append([rng.choice(TIMES), rng.choice(PRIOS), 'block', rng.choice(gp_names), rng.random() < 0.5])
+    only_gp = [n for n, k in allk.items() if k == 'GP']
+    for _ in range(rng.choice([0, 1, 3, 5]) if gp_names else 0):
+        # block / unblock group paths (and processors) while parts are inside the group
+        pool = only_gp if (only_gp and rng.random() < 0.6) else gp_names
+        t = rng.choice(TIMES)
+        keep.append([t, rng.choice(PRIOS), 'block', rng.choice(pool), rng.random() < 0.6])
+        if rng.random() < 0.5:
+            keep.append([t + rng.choice([0.5, 1.5, 3]), rng.choice(PRIOS), 'block', keep[-1][3], False])
     spec['actions'] = keep
     spec['profile'] = 'groups'
     spec.pop('between', None)
@@ -378,13 +384,14 @@ def gen_contention(rng):
 def gen_buffers(rng, noise=False):
     spec = {'devs': [], 'groups': [], 'res': {}, 'actions': []}
     devs = spec['devs']
-    grid = [0.1, 0.3, 0.7, 1 / 3, 1e-3, 3.7, 0.2] if noise else GRID
+    grid = [0.1, 0.3, 0.7, 1 / 3, 3.7, 0.2, 1.1] if noise else GRID
+    dgrid = grid + [1e-3] if noise else grid       # tiny values only as buffer delays (they do not multiply events)
     if rng.random() < 0.4:
         spec['res']['r0'] = rng.choice([0, 1, 1])
     ns = rng.choice([1, 2, 3])
     for i in range(ns):
         s = source(rng, f'S{i}', batch_p=0.5)
-        s['c'] = rng.choice(grid if not noise else [0.1, 0.3, 0.7, 1 / 3])
+        s['c'] = rng.choice(grid if not noise else [0.3, 0.7, 1 / 3, 1.1])
         if s['c'] == 0 and s['budget'] == INF:
             s['budget'] = 7
         devs.append(s)
@@ -394,7 +401,7 @@ def gen_buffers(rng, noise=False):
         prev = ['BA0']
     nb = rng.choice([1, 1, 2, 3])
     for j in range(nb):
-        devs.append({'k': 'B', 'n': f'B{j}', 'c': rng.choice(grid if noise else [0, 0, 0] + grid),
+        devs.append({'k': 'B', 'n': f'B{j}', 'c': rng.choice(dgrid if noise else [0, 0, 0] + grid),
                      'cap': rng.choice([1, 2, 3, 4, 4, INF]), 'up': prev})
         prev = [f'B{j}']
         if rng.random() < 0.4 and j < nb - 1:
@@ -418,7 +425,7 @@ def gen_buffers(rng, noise=False):
                               names_of(spec, 'S'))
     spec = finish(rng, spec, 'buffers-noise' if noise else 'buffers')
     if noise:
-        spec['T'] = [rng.choice([7.3, 19.9, 41.7])]
+        spec['T'] = [rng.choice([7.3, 12.9, 19.9])]
         spec.pop('between', None)
     return spec
 
@@ -476,6 +483,11 @@ def gen_interrupt(rng):
             acts.append([t, pr, 'addres', 'r0', rng.choice([-1, 1])])
     if procs and rng.random() < 0.35:
         acts += fail_during_maint(rng, procs)
+    if procs and rng.random() < 0.2:
+        # a machine that resets itself: its shutdown callback restores it at once after a failure
+        for d in devs:
+            if d['n'] == rng.choice(procs):
+                d['autoreset'] = True
     if procs and rng.random() < 0.3:
         # the same part interrupted by two (or three) maintenance windows within one long cycle
         P = rng.choice(procs)
@@ -499,7 +511,12 @@ def gen_interrupt(rng):
         acts.append([d['budget'] * d['c'] + rng.choice([0, 0.25, 0.5, 1]), rng.choice(PRIOS), 'adjust', d['n'],
                      rng.choice([1, 2, 3])])
     spec['actions'] = acts
-    return finish(rng, spec, 'interrupt')
+    spec = finish(rng, spec, 'interrupt')
+    if len(spec['T']) > 1 and rng.random() < 0.5:
+        # a machine (with its own sink) created between two simulate() calls, fed by an existing device
+        feeders = [d['n'] for d in devs if d['k'] in ('S', 'B', 'P', 'H')]
+        spec.setdefault('between', []).append([0, 'newline', [rng.choice(feeders)], rng.choice([0.5, 1, 2])])
+    return spec
 
 
 # ----------------------------------------------------------------------------------------- batching
@@ -690,7 +707,7 @@ def gen_parallel(rng):
             devs.append({'k': 'P', 'n': f'X{i}', 'c': rng.choice(G), 'up': up_i, 'res': rng.choice([None, {'r': 1}, {'r': 2}]),
                          'alt': None, 'wod': rng.choice([0.5, 2]), 'wocap': 1, 'wocost': 0})
         else:
-            devs.append({'k': 'K', 'n': f'X{i}', 'c': rng.choice(G), 'up': up_i})
+            devs.append({'k': 'K', 'n': f'X{i}', 'c': rng.choice([0, 0] + G), 'up': up_i})
         par.append((f'X{i}', k))
         if k != 'K':
             nonsink.append(f'X{i}')
@@ -840,7 +857,7 @@ def well_posed(spec):
             if b[1] == 'addres':
                 if b[2] not in spec['res']:
                     return False
-            elif b[1] == 'newsink':
+            elif b[1] in ('newsink', 'newline'):
                 if not b[2] or any(u not in names for u in b[2]):
                     return False
             elif b[2] not in names or (b[1] == 'rewire_add' and b[3] not in names):
